@@ -1,7 +1,7 @@
 import copy
 import itertools
 from functools import reduce
-from operator import add, itemgetter
+from operator import add, itemgetter, mul
 from typing import List, Tuple, Union
 
 import numpy as np
@@ -79,7 +79,7 @@ def _permutation_matrix(
     if position < 2:
         I_head = np.eye(1)
     else:
-        size = reduce(add, dim_list[: position - 1])
+        size = reduce(mul, dim_list[: position - 1])
         I_head = np.eye(size)
 
     # create matrix K
@@ -88,7 +88,7 @@ def _permutation_matrix(
 
     # identity matrix for tail of permutation matrix
     if position < len(dim_list) - 1:
-        size = reduce(add, dim_list[position + 1 :])
+        size = reduce(mul, dim_list[position + 1 :])
         I_tail = np.eye(size)
     else:
         I_tail = np.eye(1)
